@@ -74,14 +74,61 @@ def render(p):
     return "\n".join(out) + "\n"
 
 
+SMALL = ["0.05", "0.1", "0.15", "0.2", "0.25", "0.3"]
+SUM1 = [["0.5", "0.5"], ["0.25", "0.25", "0.5"], ["0.3", "0.7"], ["0.2", "0.3", "0.5"], ["0.6", "0.4"]]
+
+
+def gen_improbable(rng):
+    """Evidence that can only hold in improbable worlds, next to a literal of probability 0 (null choice of an AD
+    summing to exactly 1, a 0.0:: fact, the negation of a 1.0:: fact): every positive-probability explanation is
+    a product of several small probabilities, the probability-0 world is `cheap` unless ln 0 is clamped properly."""
+    p = {"facts": [], "pads": [], "rules": [], "evidence": []}
+    kind = rng.choice(["ad", "ad", "zero", "one"])
+    if kind == "ad":
+        split = rng.choice(SUM1)
+        heads = [("x%d" % i, pr) for i, pr in enumerate(split)]
+        p["pads"].append({"heads": heads, "body": []})
+        for i, (h, _) in enumerate(heads):
+            k = rng.choice([1, 1, 2])
+            cs = []
+            for j in range(k):
+                n = "f%d" % len(p["facts"])
+                p["facts"].append((n, rng.choice(SMALL)))
+                cs.append(n)
+            # the head is compatible with the (negative) evidence only if all its unlikely facts are true
+            for c in cs:
+                p["rules"].append(("r0", [(False, h), (True, c)]))
+        p["evidence"].append(("r0", False))
+    else:
+        z = ("f0", "0.0") if kind == "zero" else ("f0", "1.0")
+        p["facts"].append(z)
+        zl = (False, "f0") if kind == "zero" else (True, "f0")     # the probability-0 literal
+        p["rules"].append(("r0", [zl]))
+        for _ in range(rng.choice([1, 2])):
+            body = []
+            for j in range(rng.choice([1, 2, 3])):
+                n = "f%d" % len(p["facts"])
+                p["facts"].append((n, rng.choice(SMALL)))
+                body.append((False, n))
+            p["rules"].append(("r0", body))
+        p["evidence"].append(("r0", True))
+    return p
+
+
 def gen_prog(rng):
+    if rng.random() < 0.25:
+        return gen_improbable(rng)
     p = {"facts": [], "pads": [], "rules": [], "evidence": []}
     nf = rng.choice([1, 2, 2, 3, 3, 4, 4, 5])
     p["facts"] = [("f%d" % i, rng.choice(PROBS)) for i in range(nf)]
+    if rng.random() < 0.12:
+        i = rng.randrange(nf)
+        p["facts"][i] = (p["facts"][i][0], rng.choice(["0.0", "1.0"]))
     atoms = [n for n, _ in p["facts"]]
     if rng.random() < 0.3:
         k = rng.choice([2, 2, 3])
-        split = rng.choice([["0.3", "0.5", "0.1"], ["0.5", "0.5", "0"], ["0.2", "0.3", "0.4"], ["0.6", "0.1", "0.3"]])
+        split = rng.choice([["0.3", "0.5", "0.1"], ["0.5", "0.5", "0"], ["0.2", "0.3", "0.4"], ["0.6", "0.1", "0.3"],
+                            ["0.3", "0.7", "0"], ["0.25", "0.25", "0.5"]])
         heads = [("x%d" % i, split[i]) for i in range(k) if split[i] != "0"]
         body = [(rng.random() < 0.3, rng.choice(atoms))] if rng.random() < 0.3 else []
         p["pads"].append({"heads": heads, "body": body})
@@ -110,8 +157,7 @@ class Sem:
         for k, ad in enumerate(p["pads"]):
             opts = [(k, i, Fraction(pr)) for i, (_, pr) in enumerate(ad["heads"])]
             rest = 1 - sum(o[2] for o in opts)
-            if rest > 0:
-                opts.append((k, None, rest))
+            opts.append((k, None, rest))
             ad_opts.append(opts)
         self.worlds = []
         for combo in itertools.product(*(fact_opts + ad_opts)):
@@ -123,10 +169,12 @@ class Sem:
             for c in combo[len(fact_opts):]:
                 ch[c[0]] = c[1]
                 w *= c[2]
-            if w > 0:
-                v = self.truth(fv, ch)
-                ok = all(v[a] == val for a, val in p["evidence"])
-                self.worlds.append((w, fv, ch, ok))
+            # worlds of probability 0 (a 0.0:: fact true, the null choice of an AD summing to 1) stay in the
+            # enumeration: they are logically possible, the encoder gives them a finite (clamped) cost, and an
+            # answer that picks one must be recognised as a world of probability 0
+            v = self.truth(fv, ch)
+            ok = all(v[a] == val for a, val in p["evidence"])
+            self.worlds.append((w, fv, ch, ok))
 
     def truth(self, fv, ch):
         p = self.p
@@ -210,13 +258,25 @@ class Sem:
                 dist_e[key] = dist_e.get(key, 0) + w
         mine = tuple(not dict((nm, neg) for neg, nm, _ in lits)[nm] for nm in order)
         p_mine = dist.get(mine, Fraction(0))
-        if dist_e.get(mine, Fraction(0)) != p_mine or p_mine == 0:
+        # logical guarantee: every world (also those of probability 0) that agrees with the answer satisfies the evidence
+        cnt, cnt_e = {}, {}
+        for w, fv, ch, ok in self.worlds:
+            key = tuple(bool(preds[nm](fv, ch)) for nm in order)
+            cnt[key] = cnt.get(key, 0) + 1
+            if ok:
+                cnt_e[key] = cnt_e.get(key, 0) + 1
+        if mine not in cnt:
+            probs.append("the answer is not a possible assignment of the atoms it names")
+        elif cnt_e.get(mine, 0) != cnt[mine]:
             probs.append("the answer does not guarantee the evidence (P(answer)=%s, P(answer & evidence)=%s)"
                          % (p_mine, dist_e.get(mine, Fraction(0))))
-        sure = [dist[k] for k in dist if dist_e.get(k, 0) == dist[k] and dist[k] > 0]
+        sure = [dist[k] for k in dist if cnt_e.get(k, 0) == cnt[k] and dist[k] > 0]
         if sure:
             best = max(sure)
-            if p_mine > 0 and math.log(p_mine) < math.log(best) - ln_slack - 1e-9:
+            if p_mine == 0:
+                probs.append("the returned world has probability 0, but a world with probability %s (%.6g) is consistent "
+                             "with the evidence" % (best, float(best)))
+            elif math.log(p_mine) < math.log(best) - ln_slack - 1e-9:
                 probs.append("probability of the answer %s (%.6g) is below the maximum %s (%.6g)"
                              % (p_mine, float(p_mine), best, float(best)))
         if reported is not None and abs(Fraction(reported) - p_mine) > Fraction(1, 10 ** 9):
@@ -224,7 +284,8 @@ class Sem:
         return probs
 
     def satisfiable(self):
-        return any(ok for _, _, _, ok in self.worlds)
+        """some world of POSITIVE probability satisfies the evidence"""
+        return any(ok and w > 0 for w, _, _, ok in self.worlds)
 
 
 # ------------------------------------------------------------------ a small complete search over a wcnf (solver check)
@@ -568,6 +629,19 @@ WITNESSES = [
     # evidence contradicts a node that the grounder already decided
     {"facts": [("a", "0.95"), ("b", "0.3")], "pads": [], "rules": [("r0", [(True, "a")]), ("r0", [(False, "a")]), ("e", [(False, "b")])],
      "evidence": [("r0", False), ("e", True)]},
+    # ln 0 clamp: AD summing to exactly 1, both heads expensive under the evidence (MPE: x1, f1, \+f0 with 0.08)
+    {"facts": [("f0", "0.2"), ("f1", "0.2")], "pads": [{"heads": [("x0", "0.5"), ("x1", "0.5")], "body": []}],
+     "rules": [("r0", [(False, "x0"), (True, "f0")]), ("r0", [(False, "x1"), (True, "f1")])], "evidence": [("r0", False)]},
+    # ln 0 clamp: three heads summing to 1
+    {"facts": [("f0", "0.3"), ("f1", "0.3"), ("f2", "0.3")],
+     "pads": [{"heads": [("x0", "0.25"), ("x1", "0.25"), ("x2", "0.5")], "body": []}],
+     "rules": [("r0", [(False, "x0"), (True, "f0")]), ("r0", [(False, "x1"), (True, "f1")]), ("r0", [(False, "x2"), (True, "f2")])],
+     "evidence": [("r0", False)]},
+    # ln 0 clamp: a 0.0:: fact competing with an unlikely fact; a 1.0:: fact whose negation competes
+    {"facts": [("f0", "0.0"), ("f1", "0.1")], "pads": [], "rules": [("r0", [(False, "f0")]), ("r0", [(False, "f1")])],
+     "evidence": [("r0", True)]},
+    {"facts": [("f0", "1.0"), ("f1", "0.1"), ("f2", "0.2")], "pads": [],
+     "rules": [("r0", [(True, "f0")]), ("r0", [(False, "f1"), (False, "f2")])], "evidence": [("r0", True)]},
     # evidence is a single fact
     {"facts": [("a", "0.6"), ("b", "0.3")], "pads": [], "rules": [("e", [(False, "a")])], "evidence": [("e", True)]},
     # decomposable
@@ -587,7 +661,8 @@ def run(ctx):
         "atoms it names: it must be consistent, guarantee the evidence, have maximal probability among such assignments (MaxSAT: "
         "within (n+1)*1e-4 in ln) and the reported probability must be its probability (1e-9)",
         "maxsatz is assumed to return an optimum of the wcnf; checked per instance by a DPLL search in the harness",
-        "probabilities 0 and 1 are outside the generated fragment (ln 0 is clamped to -10000 by the encoder)",
+        "literals of probability 0 (0.0:: / 1.0:: facts, null choice of an AD summing to 1) are generated; the encoder clamps ln 0 to -10000 "
+        "(cost 10^8, C20_log_zero_is_clamped / C20_zero_probability_literal_loses); worlds of probability below e^-10000 are not generated",
         "mpe_semiring's preprocessing is replicated in the harness to obtain the LogicNNF it evaluates (no queries in the programs)",
     ]
     ctx.cov["trusted_base"] += ["maxsatz binary (answers checked per instance by harness DPLL)",
